@@ -312,6 +312,24 @@ func init() {
 	intercepts["strings.Index"] = func(ex *Exec, c *frame, fn *ssa.Function, a []Value) Value {
 		return int64(strings.Index(mustStr(a[0]), mustStr(a[1])))
 	}
+	// strings.Map on a concrete string: the mapping function is called rune by rune (its real code runs)
+	intercepts["strings.Map"] = func(ex *Exec, c *frame, fn *ssa.Function, a []Value) Value {
+		str, ok := a[1].(string)
+		if !ok {
+			panic(engineErr("strings.Map of a symbolic string"))
+		}
+		var out []rune
+		for _, r := range str {
+			res, isInt := ex.call(a[0], []Value{int64(r)}, nil, c).(int64)
+			if !isInt {
+				panic(engineErr("strings.Map: symbolic mapping result"))
+			}
+			if res >= 0 {
+				out = append(out, rune(res))
+			}
+		}
+		return string(out)
+	}
 	intercepts["strings.TrimSpace"] = func(ex *Exec, c *frame, fn *ssa.Function, a []Value) Value {
 		return strings.TrimSpace(mustStr(a[0]))
 	}
@@ -669,6 +687,12 @@ func unwrapIface(v Value) Value {
 func numericTag(t int) bool { return t == TF64 || t == TI64 || t == TInt }
 
 func (ex *Exec) jsonEqual(a, b Value, fr *frame) Value {
+	// a value that contains itself (a map bound inside itself) would recurse for ever
+	ex.jeqDepth++
+	defer func() { ex.jeqDepth-- }()
+	if ex.jeqDepth > 100 {
+		panic(engineErr("JSONEqual: value nested deeper than 100 levels (cyclic?)"))
+	}
 	if la, ok := a.(*Lazy); ok {
 		if lb, ok := b.(*Lazy); ok && la == lb {
 			return true
